@@ -76,6 +76,27 @@ def directed(rng: random.Random, tier: str):
                 hs.round([(order[0], mk()), (order[1], mk()), (4, hs.publish(100, b"z"))], [1, 2, 3, 4], 1)
             hs.round([(4, hs.publish(100, b"y"))], [1, 4], 2)
             out.append(hs)
+    # control frames declaring FEWER payload bytes than their definition: the manager decodes them from whatever
+    # the shared receive buffer still holds.  That decoding is not modelled (DESIGN 10.1), so these histories run
+    # against the implementation only: whatever it decodes, it must not raise.
+    ctl = [("CONNECT", 4), ("CONNECT_V2", 44), ("SUBSCRIBE", 4), ("UNSUBSCRIBE", 4), ("PAUSE_SUBSCRIPTION", 4),
+           ("RESUME_SUBSCRIPTION", 4), ("CLIENT_SET_NAME", 32), ("MODULE_READY", 4)]
+    for name, size in ctl:
+        for short in sorted({0, 1, size - 1}):
+            for first in (True, False):
+                hs = C.History(loglevel=rng.choice([60, 10]), tag="short-control")
+                hs.impl_only = True
+                hs.round([], [], 0, accept=True)
+                hs.round([], [], 0, accept=True)
+                hs.round([(1, hs.connect_v2(mod_id=10, name=b"monitor"))], [1, 2], 0)
+                hs.round([(1, hs.sub("sub", C.ALL))], [1, 2], 0)
+                if not first:
+                    hs.round([(2, hs.connect_v1(src_mod=11))], [1, 2], 0)
+                    hs.round([(2, hs.publish(100, bytes(range(1, 65))))], [1, 2], 0)   # leaves bytes in the buffer
+                hs.round([(2, hs.frame(C.MT[name], bytes([7] * short), "InNone"))], [1, 2], 1)
+                hs.round([(1, hs.publish(101, b"after"))], [1, 2], 2)
+                hs.round([], [], 30)
+                out.append(hs)
     # cascades: n subscribers of CLIENT_CLOSED all fail at the same instant; the first departure is published,
     # every failed delivery is handled INSIDE the delivery that discovered it (one nesting level per dead client)
     for n, deep in ([(12, False), (40, False), (300, True)]):
